@@ -63,10 +63,18 @@ RECURSIVE ApplyAll(_, _)
 ApplyAll(d, ops) == IF ops = <<>> THEN d ELSE ApplyAll(ApplyOp(d, Head(ops)), Tail(ops))
 
 (* --------------------------- glob pointers --------------------------- *)
-RECURSIVE Glob(_, _)          \* pattern and text are sequences of 1-char strings; `*` any run, `?` any one character
+\* pattern and text are sequences of 1-char strings; `*` any run, `?` any one character, `[abc]` one of the listed characters, `[!abc]` any
+\* other one (inside the brackets `*` and `?` are ordinary characters; ranges are not used by the drivers); a `[` without `]` is itself
+CloseAt(p) == LET S == {k \in 3..Len(p) : p[k] = "]"} IN IF S = {} THEN 0 ELSE CHOOSE k \in S : \A j \in S : k <= j
+RECURSIVE Glob(_, _)
 Glob(p, s) ==
   IF p = <<>> THEN s = <<>>
   ELSE IF Head(p) = "*" THEN Glob(Tail(p), s) \/ (s # <<>> /\ Glob(p, Tail(s)))
+  ELSE IF Head(p) = "[" /\ CloseAt(p) # 0 THEN
+       LET c == CloseAt(p)
+           neg == p[2] = "!"
+           body == {p[k] : k \in (IF neg THEN 3 ELSE 2)..(c - 1)}
+       IN s # <<>> /\ ((Head(s) \in body) # neg) /\ Glob(SubSeq(p, c + 1, Len(p)), Tail(s))
   ELSE s # <<>> /\ (Head(p) = "?" \/ Head(p) = Head(s)) /\ Glob(Tail(p), Tail(s))
 \* concrete pointers (sequences of keys) of the object part of doc selected by a pattern (sequence of glob segments)
 RECURSIVE Select(_, _)
